@@ -279,6 +279,55 @@ def run_composites(ctx: Ctx) -> None:
                 return True, ""
             _guard(ctx, "T67.sequential", f"{name}:D={D}", fS, f"composite={name} D={D}", thc)
 
+    ctx.rule("T67.sequential-nonrigid", "SequentialTransform with a non-rigid member, called on undeformed grid points (grid=True, the image "
+                                        "warping path): a displacement field that is not the first member is *sampled* at the already "
+                                        "transformed points (y = x' + u(x')), a first member is added lattice-wise; order (linear, dense) vs "
+                                        "(dense, linear) give A(.) o (id+u) resp. (id+u) o A(.)")
+
+    def thsn():
+        from .t6_transforms import TEnv
+        env = TEnv(ctx, 2)
+        it = env.it
+        Seq = prog.cls(C, "SequentialTransform")
+        DDF = prog.cls("deepali.spatial.nonrigid", "DisplacementFieldTransform")
+        HT = prog.cls("deepali.spatial.linear", "HomogeneousTransform")
+        lin = it.new(HT, env.grid, params=False)
+        p = it.method(lin, "data")
+        Ab = STensor.symbols("A", [2, 3])
+        for i, v in zip(p.idx, Ab.flat()):
+            p.store[i] = v
+        d = it.new(DDF, env.grid, params=False)
+        env.randomize(d)
+        it.method(d, "update")
+        u = it.method(d, "tensor").clone()
+        ac = it.method(env.grid, "align_corners")
+        x = identity_coords((5, 5), ac).unsqueeze(0)
+        xf = x.reshape([-1, 2])
+        # (linear, dense)
+        seq = it.new(Seq, lin, d)
+        del symt.GRID_SAMPLE_CALLS[:]
+        y = it.call_value(seq, [x], {"grid": True})
+        calls = list(symt.GRID_SAMPLE_CALLS)
+        x1 = symt.stack([apply(Ab, xf[q]) for q in range(xf.shape[0])], 0)
+        if len(calls) != 1:
+            return False, (f"Sequential(linear, dense) on grid points: the dense member must sample its field at the transformed points "
+                           f"(1 torch.grid_sample call), saw {len(calls)}")
+        if not teq(calls[0]["grid"].reshape([-1, 2]), x1) or not teq(calls[0]["input"], u):
+            return False, "Sequential(linear, dense): the displacement field is not sampled at the linearly transformed points"
+        smp = symt.grid_sample(u, calls[0]["grid"], mode=calls[0]["mode"], padding_mode=calls[0]["padding_mode"], align_corners=calls[0]["align_corners"])
+        want = x1.add(smp[0].permute([1, 2, 0]).reshape([-1, 2]))
+        if bool(calls[0]["align_corners"]) != bool(ac) or not teq(y.reshape([-1, 2]), want):
+            return False, "Sequential(linear, dense)(x) != x' + u(x')"
+        # (dense, linear)
+        seq2 = it.new(Seq, d, lin)
+        y2 = it.call_value(seq2, [x], {"grid": True})
+        ul = u[0].permute([1, 2, 0]).reshape([-1, 2])
+        want2 = symt.stack([apply(Ab, xf[q].add(ul[q])) for q in range(xf.shape[0])], 0)
+        if not teq(y2.reshape([-1, 2]), want2):
+            return False, "Sequential(dense, linear)(x) != A (x + u(x)) + b"
+        return True, ""
+    _guard(ctx, "T67.sequential-nonrigid", "lin+ddf", fSf, "sequential linear/dense on grid points", thsn)
+
     def thm():
         from .t6_transforms import TEnv
         env = TEnv(ctx, 2)
